@@ -20,6 +20,8 @@ val forallb : ('a1 -> bool) -> 'a1 list -> bool
 
 val filter : ('a1 -> bool) -> 'a1 list -> 'a1 list
 
+val find : ('a1 -> bool) -> 'a1 list -> 'a1 option
+
 val seq : nat -> nat -> nat list
 
 val repeat : 'a1 -> nat -> 'a1 list
